@@ -566,7 +566,11 @@ impl TableStore {
         }
         let merged_table = self.save_table(merged_table)?;
         for table in &tables[1..] {
-            self.remove_head(table);
+            // The merged table may be content-identical to (and therefore have the
+            // same name as) one of the merged heads. That head must be kept.
+            if table.name != merged_table.name {
+                self.remove_head(table);
+            }
         }
         Ok((merged_table, lock))
     }
